@@ -21,6 +21,32 @@ def run(ctx):
             p = problems.gen_problem(rng, A, alg_name=nm)
             p["stopval"] = rng.choice([1.0, 10.0, 0.1]) * (-1 if p.get("max") else 1)
             ps.append(p)
+        # stopval reached in the middle of a run (also by a member of an initial population / interpolation set)
+        for nm in problems.ALL:
+            for _ in range(12 if ctx.thorough else 3):
+                p = problems.gen_problem(rng, A, alg_name=nm, box="finite", with_constraints=False, maxeval=rng.choice([100, 300]))
+                for k in ("ftol_rel", "xtol_rel", "xtol_abs", "maxtime", "clockq", "clock0"):
+                    p.pop(k, None)
+                p["obj"] = 0
+                # value of the bowl at the start, then a threshold that a fraction of the box (but not the start) reaches
+                w = [1 + 0.5 * i for i in range(p["n"])]
+                f0 = sum(wi * (x - c) ** 2 for wi, x, c in zip(w, p["x0"], p["oc"]))
+                sv = f0 * rng.choice([0.9, 0.6, 0.3, 0.1])
+                p["stopval"] = -sv if p.get("max") else sv
+                ps.append(p)
+        # initial steps wider than the box, start on or next to a bound (initial simplex / interpolation set has to be repaired
+        # against both bounds)
+        for nm in problems.DERIV_FREE_LOCAL:
+            for _ in range(20 if ctx.thorough else 6):
+                p = problems.gen_problem(rng, A, alg_name=nm, box=rng.choice(["finite", "tight"]), with_constraints=False)
+                if nm == "NLOPT_LN_NEWUOA":
+                    continue
+                wd = [b - a for a, b in zip(p["lb"], p["ub"])]
+                p["x0"] = [rng.choice([a, b, b - 0.05 * d, a + 0.05 * d]) for a, b, d in zip(p["lb"], p["ub"], wd)]
+                p["dx"] = [rng.choice([1.5, 3.0, -1.5, 0.6]) * d for d in wd]
+                p["oc"] = [rng.choice([a - d, b + d, (a + b) / 2]) for a, b, d in zip(p["lb"], p["ub"], wd)]
+                p["obj"] = 0
+                ps.append(p)
         batch = runcheck.run_batch(ctx, bdir, A, ps, [monitors.mon_returned_point], "all algorithms, early exits")
         ctx.sample({"spec": batch[0][1].spec})
         ctx.sample({"spec": batch[-1][1].spec})
